@@ -29,6 +29,22 @@ def _pairs(xs, owner=None):
     return out
 
 
+_ANCHORS = None
+
+
+def loop_anchors():
+    global _ANCHORS
+    if _ANCHORS is None:
+        import json
+        p = os.path.join(os.path.dirname(os.path.dirname(os.path.abspath(__file__))), "loop_anchors.json")
+        try:
+            with open(p) as f:
+                _ANCHORS = json.load(f)
+        except OSError:
+            _ANCHORS = {}
+    return _ANCHORS
+
+
 class FunContract:
     """contract of a function-valued parameter / external callable"""
 
@@ -790,6 +806,20 @@ class Verifier:
             o = loops.index(s)
         except ValueError:
             return None
+        # Loop specifications are written against loop ordinals of the pinned source; loop_anchors.json records the
+        # header text of every such loop.  When the function's loop headers differ from the recorded ones (a loop was
+        # added, removed or reordered), a loop is re-attached to the ordinal that carried the same header text
+        # (k-th occurrence to k-th occurrence); a loop whose header is new has no specification.
+        base = loop_anchors().get(key)
+        if base is not None:
+            cur = [frontend.loop_header(l) for l in loops]
+            if cur != base:
+                h = cur[o]
+                bi = [i for i, x in enumerate(base) if x == h]
+                ci = [i for i, x in enumerate(cur) if x == h]
+                if len(bi) != len(ci):
+                    return None
+                o = bi[ci.index(o)]
         sp = specs.get(o)
         if sp is None:
             return None
@@ -905,6 +935,12 @@ class Verifier:
                 self.errors.append("vacuity guard: statements at lines %s of %s are never reached on any explored path "
                                    "(contradictory assumptions / too strong precondition?); list them in unreachable_ok "
                                    "with a reason if intended" % (missing, c.key))
+        if c.mode != "bounded" and self.bounds_hit:
+            # soundness guard: a loop without invariant is unrolled; once the unroll bound is reached the paths with
+            # more iterations are cut, so nothing about them is proved -- never report that as a proof
+            self.errors.append("loop(s) at line(s) %s reached the unroll bound %d without an invariant: paths with more "
+                               "iterations were not explored (undecided, not a proof); give the loop an invariant or "
+                               "declare the contract mode='bounded'" % (sorted(self.bounds_hit), self.unroll_bound))
         return {
             "key": c.key, "short": c.short, "prop": c.prop, "mode": c.mode, "label": c.label,
             "source_sha": frontend.source_hash(mod, node),
